@@ -24,17 +24,25 @@ def Accept (data : Msg) (vt : Bool) (s : SInfo) : Prop :=
   s.sigOk = true ∧
   (s.notBefore - s.margin ≤ effTime s ∧ effTime s ≤ s.notAfter + s.margin) ∧
   s.imprintAlgKnown = true ∧ s.imprint = data ∧
-  (vt = true → s.chainParses = true ∧ s.profileOk = true ∧ s.trusted = true)
+  (vt = true → s.chainParses = true ∧ s.profileOk = true ∧ s.trusted = true) ∧
+  s.sigAlgSupported = true
 
 /-- The statement's binding condition: the imprint is the digest of `data`, and the CMS signature
 verifies over signed attributes whose message digest is that of the TSTInfo (or over the TSTInfo
 itself when there are no signed attributes). -/
 def Bound (data : Msg) (s : SInfo) : Prop :=
   s.certFound = true ∧ s.imprint = data ∧ s.imprintAlgKnown = true ∧ s.sigOk = true ∧
-  (s.signedAttrs = true → s.md = .value true)
+  (s.signedAttrs = true → s.md = .value true) ∧ s.sigAlgSupported = true
 
 theorem Accept.bound {data vt s} (h : Accept data vt s) : Bound data s :=
-  ⟨h.1, h.2.2.2.2.2.2.2.2.1, h.2.2.2.2.2.2.2.1, h.2.2.2.2.2.1, fun a => (h.2.2.1 a).1⟩
+  ⟨h.1, h.2.2.2.2.2.2.2.2.1, h.2.2.2.2.2.2.2.1, h.2.2.2.2.2.1, fun a => (h.2.2.1 a).1,
+    h.2.2.2.2.2.2.2.2.2.2⟩
+
+/-- **Accepted ⇒ the CMS signature was verified by a validator the SDK has** — never "no validator,
+so not checked". -/
+theorem Accept.signature_verified {data vt s} (h : Accept data vt s) :
+    s.sigAlgSupported = true ∧ s.sigOk = true :=
+  ⟨h.2.2.2.2.2.2.2.2.2.2, h.2.2.2.2.2.1⟩
 
 def okLog : List Entry := [succ cValidated, succ cTsTrusted]
 
@@ -129,8 +137,10 @@ theorem step_ok_imp (data : Msg) (vt : Bool) (s : SInfo) (t : Int) (l : List Ent
     case true => simp at h
     have h4' : s.signedAttrs = true ∨ s.hasContent = true := by
       cases hs : s.signedAttrs <;> cases hc : s.hasContent <;> simp [hs, hc] at h4 ⊢
-    cases h5 : s.sigOk <;> rw [h5] at h
+    cases h5v : sigVerified s <;> rw [h5v] at h
     · simp at h
+    have h5 : s.sigOk = true := by simp [sigVerified] at h5v; exact h5v.2
+    have h5a : s.sigAlgSupported = true := by simp [sigVerified] at h5v; exact h5v.1
     cases h6 : withinValidity s <;> rw [h6] at h
     · simp at h
     have h6' := (withinValidity_iff s).1 h6
@@ -142,7 +152,7 @@ theorem step_ok_imp (data : Msg) (vt : Bool) (s : SInfo) (t : Int) (l : List Ent
     case false =>
       simp [h8] at h
       obtain ⟨rfl, rfl⟩ := h
-      exact ⟨⟨h1, h2, hy, h3, h4', h5, h6', h7, h8, by simp⟩, rfl, rfl⟩
+      exact ⟨⟨h1, h2, hy, h3, h4', h5, h6', h7, h8, by simp, h5a⟩, rfl, rfl⟩
     case true =>
       cases ht : trustCheck s [succ cValidated] with
       | some r =>
@@ -153,21 +163,22 @@ theorem step_ok_imp (data : Msg) (vt : Bool) (s : SInfo) (t : Int) (l : List Ent
         have hz := (trustCheck_none_iff s _).1 ht
         simp [h8, ht] at h
         obtain ⟨rfl, rfl⟩ := h
-        exact ⟨⟨h1, h2, hy, h3, h4', h5, h6', h7, h8, fun _ => hz⟩, rfl, rfl⟩
+        exact ⟨⟨h1, h2, hy, h3, h4', h5, h6', h7, h8, fun _ => hz, h5a⟩, rfl, rfl⟩
 
 /-- Backward: under `Accept` the signer's effective time is returned with both success codes. -/
 theorem accept_imp_ok (data : Msg) (vt : Bool) (s : SInfo) (h : Accept data vt s) :
     step data vt s = .ok (effTime s) okLog := by
-  obtain ⟨h1, h2, hy, h3, h4, h5, h6, h7, h8, h9⟩ := h
+  obtain ⟨h1, h2, hy, h3, h4, h5, h6, h7, h8, h9, h10⟩ := h
+  have h5v : sigVerified s = true := by simp [sigVerified, h5, h10]
   have ha := (attrCheck_none_iff s).2 hy
   have h6' := (withinValidity_iff s).2 h6
   have h4' : (!s.signedAttrs && !s.hasContent) = false := by
     rcases h4 with h | h <;> simp [h]
   unfold step
   cases vt
-  · simp [h1, h2, ha, h3, h4', h5, h6', h7, h8, okLog]
+  · simp [h1, h2, ha, h3, h4', h5v, h6', h7, h8, okLog]
   · have ht := (trustCheck_none_iff s [succ cValidated]).2 (h9 rfl)
-    simp [h1, h2, ha, h3, h4', h5, h6', h7, h8, ht, okLog]
+    simp [h1, h2, ha, h3, h4', h5v, h6', h7, h8, ht, okLog]
 
 /-- `step` accepts exactly under `Accept`, returns the effective time and logs both success codes. -/
 theorem step_ok_iff (data : Msg) (vt : Bool) (s : SInfo) (t : Int) (l : List Entry) :
@@ -211,7 +222,7 @@ theorem step_fail_reports (data : Msg) (vt : Bool) (s : SInfo) (e : Err) (l : Li
     case true =>
       simp at h; obtain ⟨_, rfl⟩ := h
       exact ⟨⟨_, Or.inr (Or.inl rfl), by simp⟩, by simp [info, succ]⟩
-    cases h5 : s.sigOk <;> rw [h5] at h
+    cases h5 : sigVerified s <;> rw [h5] at h
     · simp at h; obtain ⟨_, rfl⟩ := h
       exact ⟨⟨_, Or.inr (Or.inr (Or.inr rfl)), by simp⟩, by simp [info, succ]⟩
     cases h6 : withinValidity s <;> rw [h6] at h
@@ -325,6 +336,20 @@ theorem timestamp_used_only_if_bound (tok : Token) (data : Msg) (vt : Bool) (t :
   obtain ⟨pre, s, post, rfl, _, hs, ht⟩ := (timestamp_used_iff_bound_and_valid tok data vt t).1 h
   exact ⟨_, s, rfl, by simp, hs.bound, ht⟩
 
+/-- **A token is used as signing time only if the CMS signature of the accepted `SignerInfo` was
+verified by a validator the SDK has**: a key / digest pair without a validator (ecdsa-with-SHA1,
+EC or RSA with SHA-224/MD5, RSASSA-PSS with SHA-1, Ed448, …) is a rejection, not a pass. -/
+theorem timestamp_used_only_if_signature_verified (tok : Token) (data : Msg) (vt : Bool) (t : Int)
+    (h : (verifyTimeStamp tok data vt).result = .ok t) :
+    ∃ ss s, tok = .parsed ss ∧ s ∈ ss ∧ s.sigAlgSupported = true ∧ s.sigOk = true ∧ t = effTime s := by
+  obtain ⟨pre, s, post, rfl, _, hs, ht⟩ := (timestamp_used_iff_bound_and_valid tok data vt t).1 h
+  exact ⟨_, s, rfl, by simp, hs.signature_verified.1, hs.signature_verified.2, ht⟩
+
+/-- No validator ⇒ rejected with `timeStamp.untrusted`, whatever else holds (even a "good" signature). -/
+theorem unsupported_sig_alg_rejected (data : Msg) (vt : Bool) (s : SInfo)
+    (h : s.sigAlgSupported = false) : ¬ Accept data vt s := by
+  intro ha; rw [ha.signature_verified.1] at h; cases h
+
 /-- The two `Accept` examples: the hypotheses are satisfiable and a bound token is used. -/
 def goodSigner (d : Msg) : SInfo :=
   { certFound := true, tstOk := true, genTime := 1000, signedAttrs := true, attrTime := some 1001,
@@ -336,6 +361,8 @@ example : (verifyTimeStamp (.parsed [goodSigner (headerMsg true)]) (headerMsg tr
     = .ok 1001 := by decide
 example : (verifyTimeStamp (.parsed [goodSigner (headerMsg false)]) (headerMsg true) true).result
     = .error .invalidData := by decide
+example : (verifyTimeStamp (.parsed [{ goodSigner (headerMsg true) with sigAlgSupported := false }])
+    (headerMsg true) true).result = .error .untrusted := by decide
 
 /-! ### a rejected token is reported -/
 
